@@ -53,7 +53,10 @@ AccountsGen == [k \in 1..(Len(SegFirst) * Len(SegSecond)) |->
                   LET i == ((k - 1) \div Len(SegSecond)) + 1  j == ((k - 1) % Len(SegSecond)) + 1
                   IN [s |-> SegFirst[i].s \o ":" \o SegSecond[j].s, a |-> SegFirst[i].a + SegSecond[j].a]]
 AccountsX == Accounts \o AccountsExtra \o AccountsGen       \* generated names start at index Len(Accounts) + Len(AccountsExtra) + 1
-QuotedGen == << P0("a b"), P0("a1"), P0("1a"), P0("x$"), P0("$x"), P0("a-b"), P0("a.b"), P0("é"), P("😀", 1), P0("1"), P0("-"), P0("US$") >>
+QuotedGen == << P0("a b"), P0("a1"), P0("1a"), P0("x$"), P0("$x"), P0("a-b"), P0("a.b"), P0("é"), P("😀", 1), P0("1"), P0("-"), P0("US$"),
+               \* symbols that read as ONE commodity only with their quotes on at least one side of the number: a lower-case or
+               \* mixed-case word on the left, a currency sign the lexer does not list
+               P0("eur"), P0("Chf"), P0("руб"), P0("₹") >>
 CommoditiesGen == [k \in 1..Len(QuotedGen) |-> [sym |-> QuotedGen[k].s, txt |-> [s |-> "\"" \o QuotedGen[k].s \o "\"", a |-> QuotedGen[k].a], k |-> "quoted"]]
 CommoditiesX == Commodities \o CommoditiesGen
 
